@@ -2,7 +2,7 @@
 import random, json, os, tempfile, shutil, copy, hashlib, math
 from common import *
 
-RULE = ("fixed histories (entry written under a higher threshold read under a lower one and vice versa for MCS results with a confidence in between; atom-map removal switched off/on; the same reactions as bare strings and as rows carrying further columns named like output columns; the same rows in another order; the same rows with an extended `columns` list; each also with ONE Balancer object re-used and its public attributes set between runs) and random histories of 3-6 rebalancing runs over ONE shared cache directory (temp dir outside /repo and /verif): inputs drawn with "
+RULE = ("fixed histories (entry written under a higher threshold read under a lower one and vice versa for MCS results with a confidence in between; atom-map removal switched off/on; the same reactions as bare strings and as rows carrying further columns named like output columns; the same rows in another order; the same rows with an extended `columns` list; batches whose strings concatenate alike; a birthday probe of the key function itself (10^5 one-row batches); each also with ONE Balancer object re-used and its public attributes set between runs) and random histories of 3-6 rebalancing runs over ONE shared cache directory (temp dir outside /repo and /verif): inputs drawn with "
         "overlap from a pool of cheap reactions and two MCS-stage reactions, batch size in {None,1,2,3,5}, threshold in {0, 0.5, 0.9, 1}, "
         "list-of-str / list-of-dict with the default or a renamed reaction column; between runs an existing entry is replaced by what a "
         "killed write can leave (absent, empty, a truncated prefix -- quick: 40 offsets, thorough: EVERY prefix of one entry --, garbage, "
@@ -185,6 +185,32 @@ def run(ctx):
                 hist.append((cfg, inputs))
         finally:
             shutil.rmtree(tmp, ignore_errors=True)
+    # hypothesis key_inj of the theorem (A7): the key function is injective on what a history can hold.  A key that is too narrow does
+    # not show on a few runs, so it is probed directly: the implementation's own get_hash_key on many one-row batches that differ in a
+    # free column; if two of them share a key, that pair is run through one cache directory (a collision of a full SHA-256 is out of reach)
+    try:
+        from synrbl.SynUtils.batching import CacheManager
+        cm_dir = tempfile.mkdtemp(prefix="synrbl_c12k_")
+        try:
+            cm = CacheManager(cache_dir=cm_dir)
+            cfgk = {"probe": 1}
+            seenk, pair = {}, None
+            rxa, rxb = "CC(=O)O.CCO>>CC(=O)OCC", "CCCCC(=O)O.CO>>CCCCC(=O)OC"
+            for i in range(220000 if ctx.quick() else 600000):
+                row = [{"id": "k%d" % i, "reaction": rxa if i % 2 == 0 else rxb}]
+                k = cm.get_hash_key(row, cfgk)
+                if k in seenk and seenk[k] != row:
+                    pair = (seenk[k], row); break
+                seenk[k] = row
+            ctx.count("key_probe", "keys_computed", len(seenk))
+            ctx.extra["key_length_hex_digits"] = len(k)
+            if pair is not None:
+                # the pair collides under the probe configuration; find one under the real configuration the same way is not needed: show it
+                ctx.fail("cache-key-collision", {"batches": [pair[0], pair[1]], "config": cfgk}, {"key": k, "note": "two different batches share one cache key under get_hash_key"})
+        finally:
+            shutil.rmtree(cm_dir, ignore_errors=True)
+    except Exception as e:
+        ctx.notes.append("key probe not run: %s" % str(e)[:120])
     for h in range(nh):
         tmp = tempfile.mkdtemp(prefix="synrbl_c12_")
         spy = Spy()
